@@ -399,11 +399,23 @@ Fixpoint quiet (s : stmt) : bool :=
   | _ => true
   end.
 
-(* a top-level statement: yield, a quiet statement, or a loop whose body is quiet *)
+(* quiet statements followed by exactly one trailing yield:  while (c) { ...; yield; } *)
+Fixpoint quiet_yield_last (b : list stmt) : bool :=
+  match b with
+  | [] => false
+  | s :: r =>
+      match r with
+      | [] => match s with SYield => true | _ => false end
+      | _ => quiet s && quiet_yield_last r
+      end
+  end.
+
+(* a top-level statement: yield, a quiet statement, a loop whose body is quiet, or a while loop
+   whose body is quiet up to a trailing yield *)
 Definition top_ok (s : stmt) : bool :=
   match s with
   | SYield => true
-  | SWhile _ b => forallb quiet b
+  | SWhile _ b => forallb quiet b || quiet_yield_last b
   | SFor _ _ _ _ b => forallb quiet b
   | _ => quiet s
   end.
